@@ -23,7 +23,12 @@ def main(argv: list[str]) -> int:
         with open(argv[1]) as f:
             rec = json.load(f)
         mod = load(rec['property'])
-        viols = mod.replay(rec['case'])
+        try:
+            viols = mod.replay(rec['case'])
+        except Exception as e:  # noqa: BLE001
+            print(f'HARNESS-ERROR replay of {argv[1]}: {type(e).__name__}: {e}', file=sys.stderr)
+            traceback.print_exc()
+            return 2
         quiet = os.environ.get('VERIF_REPLAY_QUIET') == '1'
         want = rec.get('signature')
         hit = [v for v in viols if v['signature'] == want] or viols
@@ -45,6 +50,11 @@ def main(argv: list[str]) -> int:
         mod.run(ctx)
     except core.HarnessError as e:
         print(f'HARNESS-ERROR {pid}: {e}', file=sys.stderr)
+        traceback.print_exc()
+        return 2
+    except Exception as e:  # noqa: BLE001
+        # the machinery itself failed (e.g. a private name it relied on is gone): that is never a verdict on the property
+        print(f'HARNESS-ERROR {pid}: {type(e).__name__}: {e}', file=sys.stderr)
         traceback.print_exc()
         return 2
     return core.finish(ctx)
